@@ -980,3 +980,169 @@ _reg6c = register
 def register(R):  # noqa: F811
     _reg6c(R)
     register_order_cut(R)
+
+
+# =========================================================================== CutByType / CutAxonTree / CutDendriteTree
+def register_cut_by_type(R):
+    from pyvc.traverse_rule import Rule
+    from pyvc.values import Obj, fresh
+
+    K = _SUBTREE_KIT
+    nof, col, sel = K["nof"], K["col"], K["sel"]
+    I, B = z3.IntSort(), z3.BoolSort()
+    TT = "swcgeom/transforms/tree.py"
+
+    def setup(S):
+        from swcgeom.transforms.tree import CutByType
+
+        t = K["raw_tree"](S)
+        G = Obj(GhostList, dict(keep=SArr(z3.K(I, z3.BoolVal(False)), nof(t), "bool", name="keep")))  # ghost: what `leave` returned at x
+        return dict(self=S.obj(CutByType, type=S.int("wanted_type")), x=t, __ghost__=dict(G6=G))
+
+    G6 = lambda E: E.spec_extra["G6"]
+
+    def J(E, v, ENT, LEFT, ctx):
+        """`removals` holds the nodes of another type that are not (yet) known to have a kept child; keep[x] (the value `leave`
+        returned at x) says: x is of the type or one of its children is kept"""
+        rem, t = v["removals"], v["x"]
+        if not isinstance(rem, SymSet):
+            return False
+        ty = to_z3(v["self"].fields["type"], "int")
+        keep = G6(E).fields["keep"].arr
+        typ = col(t, "type").arr
+        x, k = z3.Int(fresh_name("x")), z3.Int(fresh_name("k"))
+        return z3.And(
+            z3.ForAll([x], z3.Implies(rem.has(x), ctx.R(x))),
+            z3.ForAll([x], z3.Implies(ctx.R(x), rem.has(x) == z3.If(sel(LEFT, x), z3.Not(sel(keep, x)), sel(typ, x) != ty))),
+            z3.ForAll([x], z3.Implies(z3.And(ctx.R(x), sel(LEFT, x)),
+                                      sel(keep, x) == z3.Or(sel(typ, x) == ty, z3.Exists([k], z3.And(0 <= k, k < ctx.nkids(x), sel(keep, ctx.kid(x, k))))))))
+
+    def Ql(E, v, x, val, ctx):
+        return to_z3(E.truth(val), "bool") == sel(G6(E).fields["keep"].arr, x)
+
+    def ghost_leave(E, v, x, ctx):
+        g = G6(E).fields["keep"]
+        g.arr = z3.Store(g.arr, x, to_z3(E.truth(ctx.ret), "bool"))
+
+    def result_of(E):
+        calls = [kw for nm, kw in E.call_log if nm == "to_subtree"]
+        return calls[0] if len(calls) == 1 else None
+
+    def post(which):
+        def f(E, v, o):
+            res, t = v["result"], o["x"]
+            c = result_of(E)
+            if c is None or res is not c["__result__"] or c["swc_like"] is not v["x"] or c["out_mapping"] is not None:
+                return False
+            gh = K["sub_ghost"](E, res)
+            mapping, kappa, rho, Rm = gh
+            if which == "kept-iff-of-the-type-or-parent-of-a-kept-node":
+                ty = to_z3(o["self"].fields["type"], "int")
+                typ, P, n = col(t, "type").arr, col(t, "pid").arr, nof(t)
+                x, c_ = z3.Int(fresh_name("x")), z3.Int(fresh_name("c"))
+                kept = lambda q: z3.Not(Rm(q))
+                return z3.ForAll([x], z3.Implies(z3.And(x >= 0, x < n), kept(x) == z3.Or(sel(typ, x) == ty, z3.Exists([c_], z3.And(c_ >= 0, c_ < n, sel(P, c_) == x, kept(c_))))))
+            return K["subtree_clause"](E, which, res, t, gh)
+
+        return f
+
+    def induction_hint(E, v):
+        """the closure to_subtree computes adds nothing: the final `removals` is closed downwards, because a kept node keeps its parent.
+        Tree induction for P(x) := Rm(x) == not keep[x]; base and step are proved, the schema is the Lean lemma `tree_induction`."""
+        c = result_of(E)
+        if c is None:
+            return
+        t = c["swc_like"]
+        mapping, kappa, rho, Rm = K["sub_ghost"](E, c["__result__"])
+        keep = G6(E).fields["keep"].arr
+        ctx = E.ghost["last-traverse-ctx"]
+        P, n = col(t, "pid").arr, nof(t)
+        x = z3.Int(fresh_name("x"))
+        Rg = lambda q: z3.And(q >= 0, q < n)
+        E.prove("CutByType.__call__/step/a-kept-node-keeps-its-parent", z3.ForAll([x], z3.Implies(z3.And(Rg(x), x != 0, sel(keep, x)), sel(keep, sel(P, x)))), "annotation")
+        base = Rm(0) == z3.Not(sel(keep, 0))
+        step = z3.ForAll([x], z3.Implies(z3.And(Rg(x), x != 0, Rm(sel(P, x)) == z3.Not(sel(keep, sel(P, x)))), Rm(x) == z3.Not(sel(keep, x))))
+        E.prove("CutByType.__call__/step/closure-agrees-at-the-root", base, "annotation")
+        E.prove("CutByType.__call__/step/closure-agrees-below-an-agreeing-parent", step, "annotation")
+        E.assume(z3.Implies(z3.And(base, step), z3.ForAll([x], z3.Implies(Rg(x), Rm(x) == z3.Not(sel(keep, x))))))
+        E.assumptions.add("assumed-lemma:tree_induction (depth witness) instantiated for P(x) = (closure of CutByType's final removals at x == not keep[x])")
+
+    POSTS = ["kept-iff-of-the-type-or-parent-of-a-kept-node", "survivors-are-exactly-the-nodes-outside-the-closure-in-order", "survivors-keep-every-attribute",
+             "ids-are-positions-and-parent-relation-kept", "result-shares-no-storage-with-the-input"]
+    R.add(f"{TT}:CutByType.__call__", prop="C06", setup=setup,
+          requires=[K["wf_clause"](w, "x") for w in K["WF"]],
+          ensures=[(nm, post(nm)) for nm in POSTS],
+          options=dict(traverse_rule=Rule(J, Ql=Ql, modifies=["removals", G6], leave_kind="bool", ghost_leave=ghost_leave),
+                       hints={"post/kept-iff-of-the-type-or-parent-of-a-kept-node": induction_hint}),
+          notes="kept = the nodes of the type and all their ancestors (the unique fixpoint of `of the type, or parent of a kept node` on a finite tree); "
+                "`removals` is a Python set of ids; to_subtree through its proved contract")
+
+    # ---- the nested leave callback on its own (its clauses are POSTCONDITIONS here)
+    from contracts.C09 import node_obj
+
+    def lv_setup(S):
+        t = K["raw_tree"](S)
+        rem = SymSet(z3.Const(fresh_name("removals_mem"), z3.ArraySort(I, B)), "removals")
+        kc = S.plist("bool", name="keep_children")
+        kc.frozen = True
+        return dict(n=node_obj(S, t), keep_children=kc, removals=rem, __closure__=dict(removals=rem))
+
+    def lv_in_range(E, v, o):
+        i = to_z3(v["n"].fields["idx"], "int")
+        return z3.And(i >= 0, i < nof(v["n"].fields["attach"]))
+
+    def lv_post(which):
+        def f(E, v, o):
+            node = o["n"]
+            me = sel(col(node.fields["attach"], "id").arr, to_z3(node.fields["idx"], "int"))
+            mem0, mem1 = o["removals"].mem, v["removals"].mem
+            A, ln = K["list_view"](o["keep_children"])
+            k, q = z3.Int(fresh_name("k")), z3.Int(fresh_name("q"))
+            some_child_kept = z3.Exists([k], z3.And(k >= 0, k < ln, sel(A, k)))
+            if which == "set":
+                return z3.And(v["removals"].uid == o["removals"].uid, sel(mem1, me) == z3.And(sel(mem0, me), z3.Not(some_child_kept)),
+                              z3.ForAll([q], z3.Implies(q != me, sel(mem1, q) == sel(mem0, q))))
+            return to_z3(E.truth(v["result"]), "bool") == z3.Not(sel(mem1, me))
+
+        return f
+
+    R.add(f"{TT}:CutByType.__call__.<locals>.leave", prop="C06", setup=lv_setup,
+          requires=[("handle-in-range", lv_in_range)],
+          ensures=[("node-leaves-the-removal-set-iff-some-child-is-kept-and-nothing-else-changes", lv_post("set")),
+                   ("returns-whether-the-node-is-kept", lv_post("ret"))],
+          notes="the callback CutByType hands to Tree.traverse; `removals` is a Python set of ids")
+
+    # ---- which type: CutAxonTree / CutDendriteTree constructors
+    def init_setup(cls_name, given):
+        def f(S):
+            import swcgeom.transforms.tree as m
+            from swcgeom.core.swc_utils import SWCTypes
+
+            ty = SWCTypes(*[S.int(f"ty_{f_}") for f_ in SWCTypes._fields]) if given else None
+            return dict(self=S.obj(getattr(m, cls_name)), types=ty)
+
+        return f
+
+    def init_post(field):
+        def f(E, v, o):
+            from swcgeom.core.swc_utils import get_types
+
+            want = getattr(o["types"] if o["types"] is not None else get_types(), field)
+            got = v["self"].fields.get("type")
+            return got is not None and to_z3(got, "int") == to_z3(want, "int")
+
+        return f
+
+    for cls_name, field in (("CutAxonTree", "axon"), ("CutDendriteTree", "basal_dendrite")):
+        R.add(f"{TT}:{cls_name}.__init__", prop="C06",
+              variants={"default SWC types": init_setup(cls_name, False), "types given": init_setup(cls_name, True)},
+              ensures=[(f"cuts-by-the-{field.replace('_', '-')}-type-of-the-type-table-in-force", init_post(field))],
+              notes="the tree operation itself is CutByType.__call__ (inherited)")
+
+
+_reg6d = register
+
+
+def register(R):  # noqa: F811
+    _reg6d(R)
+    register_cut_by_type(R)
